@@ -99,7 +99,7 @@ Definition mem_id (i : arbid) (l : list arbid) : bool := existsb (fun j => id_eq
 Definition add_new_ids (have : list arbid) (req : list arbid) : list arbid :=
   fold_left (fun acc i => if mem_id i acc then acc else acc ++ [i]) req have.
 Definition ids_of (m : matrix) : list arbid := map fid (m_frames m).
-Definition requested_ids (g : option Z) (rx tx : bool) (src : matrix) : list arbid :=
+Definition requested_ids (g : glob) (rx tx : bool) (src : matrix) : list arbid :=
   flat_map (fun e =>
               (if tx then map fid (filter (sends (e_name e)) (m_frames src)) else []) ++
               (if rx then map fid (filter (receives (e_name e)) (m_frames src)) else []))
